@@ -22,9 +22,10 @@ TAGS_L = "SPDX-License-Identifier:"
 TAGS_K = "SPDX-FileContributor:"
 COPY_PREFIXES = ["SPDX-FileCopyrightText:", "SPDX-SnippetCopyrightText:", "Copyright", "Copyright (C)", "Copyright (c)", "Copyright ©", "©",
                  "SPDX-FileCopyrightText: (C)", "SPDX-FileCopyrightText: Copyright ©"]
-LICENCES = ["MIT", "GPL-3.0-or-later", "MIT OR 0BSD", "(MIT AND ISC) OR Apache-2.0+", "GPL-2.0-only WITH Classpath-exception-2.0", "LicenseRef-My.Own-1"]
+LICENCES = ["MIT", "GPL-3.0-or-later", "MIT OR 0BSD", "(MIT AND ISC) OR Apache-2.0+", "GPL-2.0-only WITH Classpath-exception-2.0", "LicenseRef-My.Own-1",
+            "LicenseRef-Poland", "LicenseRef-ACME"]     # values ending in letters that also occur in a comment marker (dnl, REM)
 HOLDERS = ["Jane Doe <jane@example.com>", "2020 Example GmbH & Co., e.V.", "2017-2019 Jérôme 山田 <https://example.com/~j>", "2001 - 2003, O'Neil (FSFE)"]
-CONTRIBUTORS = ["Joe Bloggs <joe@example.org>", "A. Nother & Co."]
+CONTRIBUTORS = ["Joe Bloggs <joe@example.org>", "A. Nother & Co.", "Jane Doe https://example.com/"]
 
 
 def end_pattern_language(ctx):
@@ -86,7 +87,7 @@ def value_exactness(tier):
     tags += [("copyright", p + " " + h, ({p + " " + h}, set(), set())) for p in COPY_PREFIXES for h in (HOLDERS if tier == "thorough" else HOLDERS[:3])]
     tags += [("contributor", TAGS_K + " " + v, (set(), set(), {v})) for v in CONTRIBUTORS]
     if tier != "thorough":
-        tags = tags[::2] + tags[1:6:2]
+        tags = [t for i, t in enumerate(tags) if t[0] != "copyright" or i % 2 == 0]
     for style in styles:
         for label, pre, suf in forms(style):
             for kind, body, want in tags:
